@@ -633,7 +633,7 @@ pub fn c11(tier: Tier) -> i32 {
     let nhuge = ctx.scale(320, 16_000);
     res.merge(run_cases_subprocess(&ctx, 3, nhuge, 40));
     let report = Report::new(
-        "stream 3: peek_n(n) with n in {2^31, 2^33, 2^40, usize::MAX/24+1, isize::MAX, usize::MAX} (peek everything that is left) on inputs of 5-400 words, in worker processes so that an abort is attributed to its case; same prophecy and classification oracle. stream 2: large previews - peek_n(n) with n in {15,16,17,31,32,33,64,255,256,257,1000,4096,20000} on inputs of 600-12 000 words in a two-mode configuration whose switching tokens are rare; every previewed token is confirmed by the following next() calls, the variant by what stopped the preview, and mode/offset must be untouched. stream 1: random multi-mode configurations, inputs of 0-34 chars with unmatched characters before/between/after tokens, histories of 5-35 operations with peek_n(n), n in {0,1,2,3,7}, at arbitrary points between next / advance_to / set_offset / set_mode / position. Oracles, both over recorded call logs and both using the real next() as reference: (a) twin execution - the same history with all peeks removed must produce identical outputs for every remaining call; (b) prophecy + classification - each peek result must equal what the following next() calls yield on a twin iterator (stopping at n, at the input end, or after a token with a transition in the current mode) and the variant must match (Matches / MatchesReachedEnd / MatchesReachedModeSwitch(target) / NotFound; at exactly n with a switch both variants are accepted; n = 0 accepts Matches([]) or NotFound). Distinct by hash of (configuration, input, history).",
+        "stream 3: peek_n(n) with n in {2^31, 2^33, 2^40, usize::MAX/24+1, isize::MAX, usize::MAX} (peek everything that is left) on inputs of 5-400 words, in worker processes so that an abort is attributed to its case; same prophecy and classification oracle. stream 2: large previews - peek_n(n) with n in {15,16,17,31,32,33,64,255,256,257,1000,4096,20000} on inputs of 600-12 000 words (one case in twelve: n in {65535, 65536, 65537, 70000} on 90 000-100 000 words) in a two-mode configuration whose switching tokens are rare; every previewed token is confirmed by the following next() calls, the variant by what stopped the preview, and mode/offset must be untouched. stream 1: random multi-mode configurations, inputs of 0-34 chars with unmatched characters before/between/after tokens, histories of 5-35 operations with peek_n(n), n in {0,1,2,3,7}, at arbitrary points between next / advance_to / set_offset / set_mode / position. Oracles, both over recorded call logs and both using the real next() as reference: (a) twin execution - the same history with all peeks removed must produce identical outputs for every remaining call; (b) prophecy + classification - each peek result must equal what the following next() calls yield on a twin iterator (stopping at n, at the input end, or after a token with a transition in the current mode) and the variant must match (Matches / MatchesReachedEnd / MatchesReachedModeSwitch(target) / NotFound; at exactly n with a switch both variants are accepted; n = 0 accepts Matches([]) or NotFound). Distinct by hash of (configuration, input, history).",
     )
     .floor("peek_over_unmatched_char", 3000)
     .floor("peek_reaching_input_end", 5000)
@@ -644,6 +644,7 @@ pub fn c11(tier: Tier) -> i32 {
     .floor("large_peeks", 1_500)
     .floor("previews_with_n_beyond_2_pow_31", 300)
     .floor("previews_longer_than_255_tokens", 300)
+    .floor("cases_with_more_than_65536_tokens_to_preview", 10)
     .floor("large_peek_stopped_by_mode_switch", 50)
     .floor("large_peek_stopped_by_input_end", 50);
     finish(&ctx, res, report)
@@ -668,6 +669,15 @@ fn gen_transparent(rng: &mut Rng) -> Transparent {
     let pool: Vec<usize> = {
         let by_index = rng.chance(1, 2);
         let mut v = gen_token_types(rng, if wide { 30 } else { 7 }, by_index);
+        if wide {
+            // enough distinct token types for very long transition lists
+            for t in 0..320usize {
+                let t = 100 + 7 * t;
+                if !v.contains(&t) {
+                    v.push(t);
+                }
+            }
+        }
         v.dedup();
         v.sort();
         v
@@ -708,7 +718,8 @@ fn gen_transparent(rng: &mut Rng) -> Transparent {
         }
         // transitions: sorted by token type, 0-3 entries, also for token types the mode does not
         // produce (so that lookups fall between entries)
-        let ntr = if wide { rng.range(4, 16) } else { rng.below(4) };
+        // wide lists: 4-16 entries, now and then more than 256 (entry numbers beyond a byte)
+        let ntr = if wide && rng.chance(1, 6) { rng.range(257, 300) } else if wide { rng.range(4, 16) } else { rng.below(4) };
         let mut tr: Vec<usize> = Vec::new();
         let mut cand = pool.clone();
         rng.shuffle(&mut cand);
@@ -750,6 +761,9 @@ fn transparent_next(t: &Transparent, input: &str, pos: &mut usize, mode: &mut us
                         }
                         if m.trans.len() > 8 {
                             st.count("switch_taken_from_a_list_of_more_than_8_transitions");
+                        }
+                        if m.trans.len() > 256 {
+                            st.count("switch_taken_from_a_list_of_more_than_256_transitions");
                         }
                         *mode = m.trans[i].1;
                         if *mode > 255 {
@@ -1071,7 +1085,7 @@ pub fn c06(tier: Tier) -> i32 {
         }));
     }
     let report = Report::new(
-        "stream 3: the repository's mode files with their inputs (veryl_modes.json + veryl_input.veryl, parol.json + input_1.par, tests/data/*.json + *.input) re-tokenized in lock step by the real scanner and by a derivative-based reference tokenizer with modes and lookaheads. stream 2: random multi-mode configurations over GENERAL patterns (overlapping languages, lookaheads, token types shared between modes, set_mode mid-stream): every token must be the one the tokenizer rule of the reference semantics gives for the patterns of the model's current mode, and current_mode() must follow the configured transitions. stream 1: random mode graphs (1-4 modes, one case in 30 with 257-300 modes; one in 8 with 4-16 transitions per mode; per mode 1-5 keyword patterns with pairwise distinct first letters so that the expected stream is computable by a 10-line function; token types drawn from a pool shared between modes, incl. values above 65535; 0-3 sorted transitions per mode to existing modes incl. self-loops and entries for token types the mode never produces), 1-3 iterations per scanner with Scanner::set_mode in between, histories of next / peek_n / set_mode / current_mode / mode_name on FindMatches and through WithPositions. Oracle: sequential model (position, mode); every token, every current_mode() reading after every call and every mode_name are compared. Distinct by hash of (configuration, plans).",
+        "stream 3: the repository's mode files with their inputs (veryl_modes.json + veryl_input.veryl, parol.json + input_1.par, tests/data/*.json + *.input) re-tokenized in lock step by the real scanner and by a derivative-based reference tokenizer with modes and lookaheads. stream 2: random multi-mode configurations over GENERAL patterns (overlapping languages, lookaheads, token types shared between modes, set_mode mid-stream): every token must be the one the tokenizer rule of the reference semantics gives for the patterns of the model's current mode, and current_mode() must follow the configured transitions. stream 1: random mode graphs (1-4 modes, one case in 30 with 257-300 modes; one in 8 with 4-16 transitions per mode (a sixth of those: 257-300); per mode 1-5 keyword patterns with pairwise distinct first letters so that the expected stream is computable by a 10-line function; token types drawn from a pool shared between modes, incl. values above 65535; 0-3 sorted transitions per mode to existing modes incl. self-loops and entries for token types the mode never produces), 1-3 iterations per scanner with Scanner::set_mode in between, histories of next / peek_n / set_mode / current_mode / mode_name on FindMatches and through WithPositions. Oracle: sequential model (position, mode); every token, every current_mode() reading after every call and every mode_name are compared. Distinct by hash of (configuration, plans).",
     )
     .floor("switch_taken", 10_000)
     .floor("token_without_transition", 10_000)
@@ -1082,6 +1096,7 @@ pub fn c06(tier: Tier) -> i32 {
     .floor("scanner_set_mode_before_find_iter", 1000)
     .floor("iterations_through_with_positions", 1000)
     .floor("switch_taken_from_a_list_of_more_than_8_transitions", 2_000)
+    .floor("switch_taken_from_a_list_of_more_than_256_transitions", 200)
     .floor("switch_into_a_mode_numbered_above_255", 150)
     .floor("cached_sibling_with_other_transitions_built_first", 1000)
     .floor("general_tokens_checked", 20_000)
